@@ -212,6 +212,78 @@ def cosim_one(args):
             out['closed_flags'] = [c.is_closed for c in chans] + [conn.is_closed]
             return
 
+        if sc['event'] == 'two-returns-two-threads':
+            # two returned messages (312, 313) are parked on one channel; two threads use the channel at the same moment: each
+            # returned message is raised once - to one of them, or to the next operation - never twice and never lost
+            ch = chans[0]
+            for code in (312, 313):
+                broker.send_content(ch.channel_id, spec.Basic.Return(reply_code=code, reply_text='R%d' % code, exchange='x', routing_key='y'),
+                                    None, b'r' * sc.get('return_size', 0), reply=False)
+            ctx.quiesce()
+            seen = []
+
+            def user(i):
+                def fn():
+                    for _ in range(sc['ops']):
+                        try:
+                            ch.basic.publish(b'p', 'pq')
+                        except amqpstorm.AMQPMessageError as why:
+                            seen.append(why.error_code)
+                        except amqpstorm.AMQPError as why:
+                            results[i] = ('other-error', getattr(why, 'error_code', None), repr(why)[:80], 0)
+                            return
+                    results.setdefault(i, ('done', sc['ops']))
+                return fn
+            ts = [ctx.spawn(user(i), 'user%d' % i) for i in range(2)]
+            for t in ts:
+                ctx.join(t)
+            for _ in range(3):
+                try:
+                    ch.check_for_errors()
+                except amqpstorm.AMQPMessageError as why:
+                    seen.append(why.error_code)
+                except amqpstorm.AMQPError as why:
+                    results[2] = ('other-error', getattr(why, 'error_code', None), repr(why)[:80], 0)
+            out['results'] = dict(results)
+            out['results'][3] = ('seen', tuple(sorted(seen)))
+            out['closed_flags'] = [c.is_closed for c in chans] + [conn.is_closed]
+            return
+
+        if sc['event'] == 'chan-close-while-opening':
+            # the broker closes channel 1 (404) at the moment another thread is inside connection.channel(): the new channel
+            # opens (the connection and its other channels keep working) and channel 1 raises the broker's reason
+            ch = chans[0]
+
+            def opener():
+                try:
+                    t0 = ctx.sched.now
+                    c = conn.channel(rpc_timeout=3)
+                    c.queue.declare('fresh')
+                    results[1] = ('done', ctx.sched.now - t0)
+                except amqpstorm.AMQPError as why:
+                    results[1] = (type(why).__name__, getattr(why, 'error_code', None), str(why)[:60], 0)
+
+            def victim():
+                try:
+                    for k in range(40):
+                        ch.queue.declare('q')
+                        amqpstorm.channel.time.sleep(0.002)
+                    results[0] = ('done', 40)
+                except amqpstorm.AMQPChannelError as why:
+                    results[0] = ('channel-error', why.error_code, str(why), 0)
+                except amqpstorm.AMQPError as why:
+                    results[0] = (type(why).__name__, getattr(why, 'error_code', None), str(why)[:60], 0)
+
+            def injector2():
+                amqpstorm.channel.time.sleep(sc['delay'])
+                broker.close_channel(ch.channel_id, sc['code'], 'TEXT-%d' % sc['code'])
+            ts = [ctx.spawn(victim, 'victim'), ctx.spawn(injector2, 'broker-injector'), ctx.spawn(opener, 'opener')]
+            for t in ts:
+                ctx.join(t)
+            out['results'] = dict(results)
+            out['closed_flags'] = [c.is_closed for c in chans] + [conn.is_closed]
+            return
+
         if sc['event'] == 'confirm-return':
             # one confirming channel, two publishers: A's mandatory message is returned as unroutable (Return, then the Ack
             # that completes the confirm), B publishes routable messages.  The returned-message error belongs to A, once.
@@ -336,6 +408,21 @@ def cosim_one(args):
             if not (r[0] == 'connection-error' and r[1] == code):
                 out['problems'].append(('conn-close-masked-by-channels-own-error', int(k.split('/')[0]), r[:3]))
                 break
+        return out
+    if ev == 'two-returns-two-threads' and res:
+        seen = res.get(3, ('seen', ()))[1]
+        others = [v for k, v in res.items() if k != 3 and v[0] != 'done']
+        if others:
+            out['problems'].append(('return-disturbed', 0, others[0][:3]))
+        elif tuple(seen) != (312, 313):
+            out['problems'].append(('returned-message-raised-twice-or-lost', 0, ('raised', tuple(seen))))
+        return out
+    if ev == 'chan-close-while-opening' and res:
+        v, o = res.get(0), res.get(1)
+        if o is not None and (o[0] != 'done' or o[1] > 1500):
+            out['problems'].append(('other-channel-disturbed', 1, o[:3]))
+        elif v is not None and v[0] != 'done' and not (v[0] == 'channel-error' and v[1] == code and ('TEXT-%d' % code) in v[2]):
+            out['problems'].append(('chan-close-wrong-error', 0, v[:3]))
         return out
     if ev == 'confirm-return' and res:
         a, b, parked = res.get(0), res.get(1), res.get(2, ('parked', 0))[1]
@@ -473,6 +560,13 @@ def check(rep):
     for _ in range(60 if not thorough else 1000):
         jobs.append(({'nchan': rng.randint(1, 2), 'ops': 8, 'event': 'return', 'code': 312, 'delay': rng.choice([0.0, 0.005, 0.01, 0.02]),
                       'consumer': False, 'getter': True, 'returns': 4, 'return_size': rng.choice([0, 7, 300, 9000])}, rng.randrange(1 << 30)))
+    # two parked returns and two threads using the channel at once; a broker Channel.Close next to connection.channel()
+    for _ in range(60 if not thorough else 1500):
+        jobs.append(({'nchan': 1, 'ops': rng.randint(1, 2), 'event': 'two-returns-two-threads', 'code': 312, 'delay': 0.0,
+                      'consumer': False, 'getter': False, 'return_size': rng.choice([0, 7])}, rng.randrange(1 << 30)))
+    for _ in range(40 if not thorough else 1000):
+        jobs.append(({'nchan': rng.randint(1, 2), 'ops': 0, 'event': 'chan-close-while-opening', 'code': rng.choice([404, 403, 406]),
+                      'delay': rng.choice([0.0, 0.001, 0.002, 0.004]), 'consumer': False, 'getter': False}, rng.randrange(1 << 30)))
     for (sc, seed), r in zip(jobs, par.pmap(cosim_one, jobs)):
         waiting = any(v[0] != 'done' for v in r.get('results', {}).values())
         rep.case(('cosim', repr(sc), seed), waiting, sample={'cosim': sc, 'results': {k: v[:2] for k, v in r.get('results', {}).items()}})
